@@ -3,7 +3,7 @@
     lower-cased words supplied by the harness for [ignore_case]. Nothing is assumed of
     [eqb] (it need not even be an equivalence). *)
 From Coq Require Import Sorting.Sorted.
-From TU Require Import Base C18_Model C18_Proofs.
+From TU Require Import Base C18_Model C18_Proofs C18_Sym.
 
 (** ** Word splitting: the words are the maximal runs free of ASCII whitespace.
     These three equations determine [split_ascii_ws] on every string. *)
@@ -56,6 +56,15 @@ Theorem match_optimal : forall K (eqb : K -> K -> bool) xs ys M M',
   length M' <= length M.
 Proof. exact match_optimal_l. Qed.
 Print Assumptions match_optimal.
+
+(** Symmetry: when word equality is symmetric (exact and case-insensitive equality both are) the number of
+    matched words does not depend on which text is the input and which the prediction, although the DP and
+    its tie-breaking are not symmetric. *)
+Theorem match_size_symmetric : forall K (eqb : K -> K -> bool) xs ys M M',
+  (forall x y, eqb x y = eqb y x) ->
+  match_keys eqb xs ys = Some M -> match_keys eqb ys xs = Some M' -> length M = length M'.
+Proof. exact match_size_sym_l. Qed.
+Print Assumptions match_size_symmetric.
 
 (** counts: the reported numbers are the numbers of whitespace-separated words, the pair
     list is the matching of the two word lists, and its size is the table's corner value *)
